@@ -1,0 +1,53 @@
+//go:build verif
+
+package linux
+
+// Exports for the verification harness of property C18 (merge of IPv4, IPv6
+// and raw configuration). Added file only; not part of the normal build.
+
+import (
+	"maps"
+	"slices"
+
+	"github.com/hknutzen/Netspoc-Approve/go/pkg/deviceconf"
+)
+
+type VerifC18Rule struct {
+	Orig   string
+	Target string // value of -j
+	Append bool
+}
+
+type VerifC18Chain struct {
+	Table, Name, Policy string
+	Rules               []VerifC18Rule
+}
+
+type VerifC18Conf struct {
+	Routes []string
+	Tables []string        // sorted
+	Chains []VerifC18Chain // sorted by table, name
+}
+
+// VerifC18Dump shows what MergeSpoc looks at: routes in stored order, tables
+// and chains (sorted by name) with policy and rules in stored order.
+func VerifC18Dump(c deviceconf.Config) VerifC18Conf {
+	cf := c.(*config)
+	var r VerifC18Conf
+	for _, ro := range cf.routes {
+		r.Routes = append(r.Routes, ro.orig)
+	}
+	for _, tName := range slices.Sorted(maps.Keys(cf.iptables)) {
+		r.Tables = append(r.Tables, tName)
+		chains := cf.iptables[tName]
+		for _, cName := range slices.Sorted(maps.Keys(chains)) {
+			ch := chains[cName]
+			dc := VerifC18Chain{Table: tName, Name: cName, Policy: ch.policy}
+			for _, ru := range ch.rules {
+				dc.Rules = append(dc.Rules, VerifC18Rule{ru.orig, ru.pairs["-j"], ru.append})
+			}
+			r.Chains = append(r.Chains, dc)
+		}
+	}
+	return r
+}
